@@ -12,7 +12,7 @@ def font_bytes(case):
     if case['kind'] == 'cmap':
         import props.c13 as c13
         try:
-            return fontsynth.build_font(c13.base_spec(c13.build_cmap(case['cmap'])))
+            return fontsynth.build_font(c13.base_spec(c13.build_cmap(case['cmap']), pseudos=case['cmap'].get('pseudos', ())))
         except (ValueError, struct.error):
             raise Inconclusive()
     if case['kind'] == 'spec':
